@@ -324,6 +324,11 @@ func (g *Group) batchToAffine(t *TraceWriter, pts []*testPoint, r *Rng) {
 		all = append(all, (i*3+1)%len(pts))
 	}
 	patterns = append(patterns, all)
+	long := make([]int, 45) // more points than CPUs: the parallel phases work on chunks of several points
+	for i := range long {
+		long[i] = (i*i + i/4) % len(pts)
+	}
+	patterns = append(patterns, long)
 	for _, pat := range patterns {
 		n := len(pat)
 		sl := reflect.MakeSlice(reflect.SliceOf(g.JacT), n, n)
